@@ -93,6 +93,12 @@ inductive Sentence where
   | derived (v : VerbUse) (conds : List Clause)                    -- <subject> is <verb> <objects> when / whenever …;  …, then X must <verb>
   | prohibited (cs : List Clause)                                  -- It is prohibited that …
   | required (main : Clause) (conds : List Clause)                 -- It is required that <main>, when / whenever …
+  -- C02: It is prohibited that <aggregate> is <comparison> <bound> / is between a and b / … <aggregate>, whenever …
+  | aggProhibited (aggs : List Agg) (cmps : List SLit) (conds : List Clause)
+  -- C02: It is required that <aggregate> is <comparison> <bound>, whenever …
+  | aggRequired (a : Agg) (conds : List Clause)
+  -- C02: It is required that <aggregate> is <comparison> <aggregate>, whenever …  (the aggregates bind result variables)
+  | aggRequired2 (aggs : List Agg) (cmp : SLit) (conds : List Clause)
   deriving Repr
 
 abbrev Spec := List Sentence
@@ -112,6 +118,9 @@ def Sentence.rules : Sentence → List Rule
   | .derived v conds => [{ head := .atom v.atom, body := derivedBody v conds }]
   | .prohibited cs => [{ head := .none, body := litsOf cs }]
   | .required m conds => [{ head := .none, body := m.negLits ++ litsOf conds }]
+  | .aggProhibited aggs cmps conds => [{ head := .none, body := litsOf conds ++ cmps, aggs := aggs }]
+  | .aggRequired a conds => [{ head := .none, body := litsOf conds, aggs := [{ a with op := a.op.negate }] }]
+  | .aggRequired2 aggs c conds => [{ head := .none, body := litsOf conds ++ [c.negate], aggs := aggs }]
 
 def compile (s : Spec) : Program := s.flatMap Sentence.rules
 
@@ -135,6 +144,13 @@ def Sentence.sat (M : Interp) : Sentence → Prop
       ∀ e, M (v.subj.atom.inst e) → (∀ o ∈ v.objs, M (o.atom.inst e)) → (∀ c ∈ conds, c.holds M e) → M (v.atom.inst e)
   | .prohibited cs => ∀ e, ¬ ∀ c ∈ cs, c.holds M e
   | .required m conds => ∀ e, (∀ l ∈ m.guards, l.holds M e) → (∀ c ∈ conds, c.holds M e) → m.core.holds M e
+  | .aggProhibited aggs cmps conds =>
+      ∀ e, (∀ c ∈ conds, c.holds M e) → (∀ l ∈ cmps, l.holds M e) →
+        ¬ ∀ a ∈ aggs, a.holds M ((litsOf conds ++ cmps).flatMap SLit.vars) e
+  | .aggRequired a conds =>
+      ∀ e, (∀ c ∈ conds, c.holds M e) → a.always M ((litsOf conds).flatMap SLit.vars) e
+  | .aggRequired2 aggs c conds =>
+      ∀ e, (∀ c ∈ conds, c.holds M e) → (∀ a ∈ aggs, a.holds M ((litsOf conds ++ [c]).flatMap SLit.vars) e) → c.holds M e
 
 /-- what a sentence offers as a reason for a relation or concept instance to hold -/
 def Sentence.justifies (M : Interp) (g : GAtom) : Sentence → Prop
@@ -144,6 +160,9 @@ def Sentence.justifies (M : Interp) (g : GAtom) : Sentence → Prop
       ∃ e, g = v.atom.inst e ∧ M (v.subj.atom.inst e) ∧ (∀ o ∈ v.objs, M (o.atom.inst e)) ∧ ∀ c ∈ conds, c.holds M e
   | .prohibited _ => False
   | .required _ _ => False
+  | .aggProhibited _ _ _ => False
+  | .aggRequired _ _ => False
+  | .aggRequired2 _ _ _ => False
 
 /-- `M` is a model of the direct set-theoretic reading of the specification: every sentence is respected, and nothing holds
 that no sentence gives a reason for -/
